@@ -89,6 +89,7 @@ func (e *Enc) tryInline(fn *ssa.Function, c *ssa.CallCommon, args []Val) ([]Val,
 	saved := inlineFrame{fn: e.fn, name: e.name, fc: e.fc, vals: e.vals, reach: e.reach, exit: e.exit, edgeCond: e.edgeCond,
 		rets: e.rets, defers: e.defers, curBlock: e.curBlock, curReach: e.curReach, loops: e.loops, loopList: e.loopList,
 		inLoops: e.inLoops, rpo: e.rpo, reachBlocks: e.reachBlocks, skip: e.skipObligations, prefix: e.prefix, names: e.names}
+	nAllocs := len(e.allocs)
 	e.inlineSeq++
 	e.inlineDepth++
 	e.inlineUsed += len(fn.Blocks)
@@ -153,6 +154,10 @@ func (e *Enc) tryInline(fn *ssa.Function, c *ssa.CallCommon, args []Val) ([]Val,
 	}
 	e.restoreFrame(saved)
 	e.cur = merged
+	// objects allocated by the inlined callee are its business (their invariants are checked where it is verified)
+	for i := nAllocs; i < len(e.allocs); i++ {
+		e.allocs[i].complete = true
+	}
 	e.emit("; end inline " + e.p.FuncName(fn))
 	return results, true
 }
